@@ -230,6 +230,7 @@ func (res *Response) writeChunk(conn net.Conn, data []byte, l int) (int, error) 
 	if totalSize < maxPacketSize {
 		if pbuf == nil {
 			pbuf = mempool.Malloc(totalSize)
+			*pbuf = (*pbuf)[0:0]
 		}
 		pbuf = mempool.AppendString(pbuf, lenStr)
 		pbuf = mempool.AppendString(pbuf, "\r\n")
@@ -247,12 +248,12 @@ func (res *Response) writeChunk(conn net.Conn, data []byte, l int) (int, error) 
 		pbuf = mempool.AppendString(pbuf, lenStr)
 		pbuf = mempool.AppendString(pbuf, "\r\n")
 		_, err = conn.Write(*pbuf)
-		mempool.Free(pbuf)
 		if err != nil {
+			mempool.Free(pbuf)
 			return 0, err
 		}
 
-		// Reset the cache buffer.
+		// Reset the cache buffer and keep using it.
 		*pbuf = (*pbuf)[0:0]
 	} else {
 		// 2. Append length string to the new buffer.
